@@ -818,7 +818,7 @@ def file_job_(job):
         cases = [F.case_line(sim, s, ix, lines) for s, ix in runs]
         if job.get('fchk'):
             aut = str(sim).startswith('AUTOUGH')
-            tags = F.tag_lines_AUT(lines) if aut else F.tag_lines(lines)
+            tags = F.tag_lines_AUT(lines) if aut else (F.tag_lines_TP(lines) if str(sim) == 'TOUGH+' else F.tag_lines(lines))
             if tags is None: res['fchk'] = 'OUT no-outline'
             else: cases.append(F.achk_line(tags, lines) if aut else F.fchk_line(sim, tags, lines))
         out, err = run_exe(job['exe'], cases)
